@@ -27,6 +27,14 @@ def wire_nontrivial(tok, res):
         return res == "up=1"                         # a real frpc runs the loaded configuration
     if tok[0] == "wobs":
         return res.startswith("a1")                  # a conversation went through the proxy
+    if tok[0] == "hprobe":
+        return True                                  # a real connector against a frps whose files have a history
+    if tok[0] == "ltry":
+        return "tls=" not in res                     # a login attempt observed by the relay
+    if tok[0] == "lsvc":
+        return res.startswith("up=1")                # a real client.Service came up through its own retry loop
+    if tok[0] == "wsraw":
+        return True                                  # a websocket peer against a real frps
     return False
 
 
@@ -44,6 +52,8 @@ def wire_class(r):
     if r.startswith("l="):
         f = dict(x.split("=") for x in r.split(";"))
         return "loaded l=%s m=%s s=%s h2=%s" % (f["l"], f["m"], f["s"], f["h2"])
+    if r.startswith("conn="):
+        return r
     if r.startswith("en="):
         f = dict(x.split("=") for x in r.split(";"))
         return "en=%s dis=%s skip=%s roots=%s" % (f["en"], f["dis"], f["skip"], f["roots"])
@@ -89,7 +99,14 @@ _T = ["sniff_custom_iff", "sniff_tls_iff", "sniff_plain_iff", "sniff_refuse_iff"
       "pxTypes_complete", "plugins_complete", "completePlugin_only_http2", "complete_keeps_flags", "complete_writes_only",
       "marshal_unmarshal_flags", "written_enc_both_ends", "written_payload_clear_iff",
       "written_enc_payload_never_clear", "written_reload_enc_payload_never_clear", "writtenKeptOk_model",
-      "writtenObsOk_model", "gen_proxy_complete", "gen_visitor_complete"]
+      "writtenObsOk_model", "gen_proxy_complete", "gen_visitor_complete",
+      # histories of the TLS files on disk: frps while its certificate / CA files are replaced, frpc's login attempts
+      # while its files come and go; websocket peers whatever their upgrade request says
+      "hist_run_keeps_running", "hist_effective_tls_const", "hist_every_handshake_requires_cert",
+      "hist_ca_peer_without_acceptable_cert_uninterpreted", "hist_force_peer_without_tls_uninterpreted",
+      "histObsOk_sound", "start_loads_disk", "site_sound_iff", "attempt_never_plain", "attempts_never_plain",
+      "attempt_memoryless", "attempt_noConn_iff", "attempt_empty_ca_refuses", "loginObsOk_model",
+      "wsPeerReply_eq_rawReply", "ws_headers_irrelevant", "ws_forced_peer_uninterpreted", "gen_tls_census"]
 
 PROP = {
         "level": "other",
@@ -156,7 +173,25 @@ PROP = {
                 "SNI, datagram) speaking what the plugin expects (raw echo, HTTP, HTTP via proxy, SOCKS5, TLS+raw, TLS+HTTP — in the TLS conversations the marker also travels in the ClientHello as an ALPN protocol "
                 "name, so every conversation has payload bytes that are readable unless a layer of frp covers them) against "
                 "local echo / HTTP / HTTPS / unix-socket / static-file services; reloadObsOk (TLS on, or useEncryption in the WRITTEN "
-                "configuration => marker absent) on every observation. non-trivial = TLS/refuse sniff, raw peer, TLS handshake attempt, relay run, digest "
+                "configuration => marker absent) on every observation; (i) HISTORIES of the TLS files on disk — ops hstart / hrepl / "
+                "hwait / hprobe: real frps rigs (each with a directory of its own; trustedCaFile of CA1 / CA2 / none, a certificate "
+                "issued at run time by CA1 / CA2 / none, force generated) whose certFile+keyFile and / or trustedCaFile are REPLACED "
+                "while frps runs (renewal by the same CA, a certificate of the other CA, the other CA's file, content without a PEM "
+                "block, files removed, only one file of the pair), with generated waits (1-300 ms; one rig per sequence is probed "
+                "again more than 5 s after its renewal, the time passing while the other rigs run) and after every round probes of "
+                "the real client.NewConnector over tcp / websocket / quic — with the certificate of CA1, of CA2, without "
+                "certificate, without TLS, right and wrong key; predicate histObsOk (an answer only for a peer the force / trusted-CA "
+                "rules admit at that point of the history); ops lstart / lfile / ltry: frpc's login ATTEMPTS (a fresh "
+                "client.NewConnector + Open + Connect + Login per attempt, as client.Service does) through the recording relay "
+                "against a real frps while the client's trustedCaFile / certFile+keyFile are missing, unparsable or present and "
+                "CHANGE between attempts (the first attempt often meets a missing file); the relay's own observation of each "
+                "attempt — connections accepted, client bytes that are not a TLS record stream, the Login's crypto/rand marker "
+                "readable — under predicate loginObsOk (TLS switched on => no clear bytes, marker absent); op lsvc: a real "
+                "client.Service (loginFailExit=false) started while the file is missing, the file appears, its own retry loop "
+                "logs in, same predicate; (j) op wsraw: a peer without TLS upgrades GET /~!frp with extra request headers — every "
+                "scheme header x scheme value, every TLS-flag header x value, Forwarded (exhaustive, 100 cases against a forcing "
+                "frps) plus generated mixes of 1-3 headers (forwarding, client-certificate, other; names in any case), other first "
+                "bytes — and sends a valid Login; a forcing frps must answer with no frame. non-trivial = TLS/refuse sniff, raw peer, TLS handshake attempt, relay run, digest "
                 "produced, CA configured, verifying ident handshake, reload step with traffic, loaded file with useEncryption written, "
                 "rig up, conversation carried; distinct = distinct (op line, result) pairs",
         "trusted": COMMON_TRUST + [
@@ -187,6 +222,15 @@ PROP = {
             "the cfgload / wstart / wobs ops; the file parsers and the legacy ini conversion are not modelled (driven); code "
             "between the loader and NewWrapper that could rewrite a configurer (validation, client.Service) is covered by the "
             "rigs only",
+            "model Frp/Model/WireHist.lean written by hand (frps: NewService builds the tls.Config once, no callback — "
+            "`effectiveTls` ignores disk and clock; frpc: one attempt = NewClientTLSConfig on the files as they are then, "
+            "error => no dial, config => TLS dial options; websocket: the upgrade request is no input of the gate); tied by "
+            "the regenerated fact gen_tls_census (every function of pkg/transport, pkg/util/net, server/**, client/** with a "
+            "tls.Config literal or a write to ClientAuth / ClientCAs / RootCAs / InsecureSkipVerify / a crypto/tls callback: "
+            "exactly NewServerTLSConfig and NewClientTLSConfig, ClientCAs never without RequireAndVerifyClientCert, no "
+            "callback; every use of the server's config identifiers inside NewService; no package-level variable in "
+            "pkg/transport) and by the hstart / hrepl / hwait / hprobe, lstart / lfile / ltry / lsvc, wsraw ops; a config "
+            "smuggled in through an alias outside those directories is seen by the rigs only",
             "wss: `Wire.wssSessionVia` (the connector's tls.Config against a TLS terminator, then a plain websocket client at "
             "frps) written by hand; tied by gen_connector_tls_required (the provenance of realConnect's `tlsEnable`, every TLS / "
             "hook dial option with its switch case) and by the cert ops with `term=`; the terminator is the harness's "
@@ -225,6 +269,8 @@ META = {
                      "all 18 message kinds x every path configuration), an invariant over all reload / reconnect histories of "
                      "the client proxy manager, the path from the written proxy configuration (Complete, NewProxy message, frps's "
                      "configurer) to the cipher layer for every proxy type x client plugin, wss against a TLS terminator, "
+                     "histories of the TLS files on disk on both sides (frps: the config of every handshake after any sequence of "
+                     "file replacements and waits; frpc: every login attempt of a retry history), websocket upgrade requests, "
                      "facts regenerated from the Go source, and an observed wire (recording relay between real frpc and frps, "
                      "exhaustive sniff, raw-peer and certificate lattices, reload histories with fresh markers after every step, "
                      "configuration files through the real loader into real frpc rigs with every client plugin)",
@@ -248,14 +294,24 @@ META = {
                 "clear form) always passes the token-keyed control cipher on public listeners; with TLS every message kind "
                 "and the payload are under TLS; without TLS exactly Login, LoginResp, NewWorkConn, StartWorkConn, NatHoleSid, "
                 "NewVisitorConn(Resp) (and unencrypted payload) are readable; useEncryption puts the cipher layer on both "
-                "ends in the same order. Observed on the real code on every run: 512 sniff cases, 512 raw-peer cases, about 3800 "
+                "ends in the same order; for every history of replacements of frps's certificate / key / CA files and every "
+                "waiting time, every handshake on every public listener runs with the config built at start (trusted CA => "
+                "RequireAndVerifyClientCert: a peer without a certificate of the loaded CA, or without TLS under force, gets no "
+                "session on any control transport); with TLS switched on no login attempt of any retry history of frpc, "
+                "whatever state its CA / certificate files are in at each attempt, is a plain connection (an unloadable file "
+                "means no connection); the reply to a websocket peer without TLS does not depend on its upgrade request. "
+                "Observed on the real code on every run: about 12 frps rigs whose TLS files are replaced while they run (about 140 "
+                "probes of the real connector over tcp / websocket / quic, one rig probed again more than 5 s after a renewal), 20 "
+                "login-attempt histories of the real connector through the recording relay with files coming and going (about 120 "
+                "attempts) plus a real client.Service retrying until its file appears, about 180 websocket peers with forged "
+                "forwarding / TLS / client-certificate request headers, 512 sniff cases, 512 raw-peer cases, about 3800 "
                 "certificate cases over tcp / websocket / quic / wss / kcp (incl. the identity sub-lattice over 12 SAN kinds; 224 wss cases "
                 "through a TLS terminator), about 560 configuration files through the real loader, 9 rigs / 82 proxies with every "
                 "client plugin carrying fresh markers, 500 "
                 "handshakes of NewClientTLSConfig's config against certificates of every SAN kind, 28 recorded frpc<->frps sessions "
                 "(tcp, websocket, quic) with random markers, 15 reload histories of a real frpc (about 75 steps, each with fresh markers), "
                 "3000 token-setter cases.",
-        "note": "Trusted: Lean kernel; hand-written models Frp/Model/Wire.lean, WireReload.lean, WireConfig.lean; translator gen_authfacts.go; harness (incl. its TLS terminator for wss). Assumed: "
+        "note": "Trusted: Lean kernel; hand-written models Frp/Model/Wire.lean, WireReload.lean, WireConfig.lean, WireHist.lean; translator gen_authfacts.go; harness (incl. its TLS terminator for wss). Assumed: "
                 "crypto/tls, crypto/x509, golib crypto. Not covered: marker observation on the kcp UDP path, OIDC bearer token in "
                 "Login, group keys, xtcp peer-to-peer traffic (not on the frpc<->frps path), traffic through the virtual_net plugin.",
     }
